@@ -2,6 +2,7 @@ package streams
 
 import (
 	"net/http"
+	"strconv"
 	"strings"
 	"sync"
 	"sync/atomic"
@@ -65,6 +66,12 @@ var scExtraHeaders = [][2]string{
 func syscStream(g *hx.Gen, id int) hx.Case {
 	syscMu.Lock()
 	defer syscMu.Unlock()
+	force, ops := syscGen(g, id)
+	return syscRun("sysc", id, force, ops)
+}
+
+// syscGen draws one history of stream sysc (shared with stream syscrh)
+func syscGen(g *hx.Gen, id int) (int, []scOp) {
 	force := 0
 	if g.Chance(15) {
 		force = 20
@@ -130,7 +137,7 @@ func syscStream(g *hx.Gen, id int) hx.Case {
 			ops = append(ops, scOp{kind: 'T', dt: 1}, r)
 		}
 		ops = append(ops, mk(false), r, r)
-		return syscRun("sysc", id, force, ops)
+		return force, ops
 	}
 	if g.Chance(7) {
 		// directed history: a 304 whose Cache-Control CHANGES the entry's lifetime ("a 304 ... updates its headers while keeping
@@ -146,7 +153,7 @@ func syscStream(g *hx.Gen, id int) hx.Case {
 			hdr: [][2]string{{"Cache-Control", cc200}, {"ETag", "\"e" + hx.I(version) + "\""}}, body: []byte("body-" + p + "-v" + hx.I(version) + "-" + g.Str("abcdef", 12))}
 		r := scOp{kind: 'R', method: "GET", path: p}
 		ops := []scOp{o, r, {kind: 'T', dt: wait}, r, {kind: 'T', dt: 6 + g.Intn(40)}, r, {kind: 'T', dt: 1 + g.Intn(60)}, r}
-		return syscRun("sysc", id, force, ops)
+		return force, ops
 	}
 	if g.Chance(6) {
 		// directed history: the same request with a method other than GET/HEAD twice, on a resource whose
@@ -168,7 +175,7 @@ func syscStream(g *hx.Gen, id int) hx.Case {
 			ops = append(ops, rg)
 		}
 		ops = append(ops, rm, rm, rg, rm)
-		return syscRun("sysc", id, force, ops)
+		return force, ops
 	}
 	if g.Chance(10) {
 		// directed history: the client of a FILLING request goes away mid-body (the fetch is aborted); the
@@ -193,7 +200,7 @@ func syscStream(g *hx.Gen, id int) hx.Case {
 		if g.Bool() {
 			ops = append(ops, scOp{kind: 'T', dt: 1}, r)
 		}
-		return syscRun("sysc", id, force, ops)
+		return force, ops
 	}
 	if g.Chance(12) {
 		// directed history: an entry with a validator goes stale and is revalidated by a 304 (which
@@ -212,7 +219,7 @@ func syscStream(g *hx.Gen, id int) hx.Case {
 		if g.Bool() {
 			ops = append(ops, scOp{kind: 'T', dt: 10}, r, r)
 		}
-		return syscRun("sysc", id, force, ops)
+		return force, ops
 	}
 	ops := []scOp{newOrigin(paths[0]), newOrigin(paths[1])}
 	n := 3 + g.Intn(5)
@@ -246,7 +253,7 @@ func syscStream(g *hx.Gen, id int) hx.Case {
 			ops = append(ops, r)
 		}
 	}
-	return syscRun("sysc", id, force, ops)
+	return force, ops
 }
 
 // C05-a witnesses: cache-enabled rule, origin status outside {200, 301/2/3/7/8, 400-404} with a body
@@ -350,7 +357,19 @@ func kfC07aLoop(g *hx.Gen, id int) hx.Case {
 }
 
 func syscRun(stream string, id int, force int, ops []scOp) hx.Case {
-	in := []string{hx.I(force), hx.I(len(ops))}
+	return syscRunRH(stream, id, force, nil, false, ops)
+}
+
+// syscRunRH: the rule carries response_headers `rh` (withRH: the input line says so: force nRH (name value)* nOps ...)
+func syscRunRH(stream string, id int, force int, rh [][2]string, withRH bool, ops []scOp) hx.Case {
+	in := []string{hx.I(force)}
+	if withRH {
+		in = append(in, hx.I(len(rh)))
+		for _, kv := range rh {
+			in = append(in, hx.X(kv[0]), hx.X(kv[1]))
+		}
+	}
+	in = append(in, hx.I(len(ops)))
 	for _, o := range ops {
 		switch o.kind {
 		case 'T':
@@ -378,6 +397,16 @@ func syscRun(stream string, id int, force int, ops []scOp) hx.Case {
 		rule := `{"rules":[{"path":"/c/*","destination":"http://o.test/$1","cache":"c1"`
 		if force > 0 {
 			rule += `,"force_revalidate":` + hx.I(force)
+		}
+		if len(rh) > 0 {
+			rule += `,"response_headers":{`
+			for i, kv := range rh {
+				if i > 0 {
+					rule += ","
+				}
+				rule += strconv.Quote(kv[0]) + ":" + strconv.Quote(kv[1])
+			}
+			rule += `}`
 		}
 		rule += `}]}`
 		rules, err := proxy.ParseRules([]byte(rule), sysx.Logger)
